@@ -2,7 +2,7 @@
 from trkgen import *
 
 ID = "C04"
-THEOREM_MODULES = ["SimVerif.Props.C04", "SimVerif.Props.Ren", "SimVerif.Props.Hist", "SimVerif.Tie.Compat"]
+THEOREM_MODULES = ["SimVerif.Props.C04", "SimVerif.Props.Ren", "SimVerif.Props.Hist", "SimVerif.Tie.Compat", "SimVerif.Tie.Shares"]
 THEOREM_MODULE = "SimVerif.Props.C04"
 NONTRIVIAL_FLAGS = {"multi-scene-store", "multi-scene-batch", "compared-nonempty", "competition", "continuation"}
 KINDS = ["sort", "bsort", "visual", "bvisual", "bsort", "bvisual"]
